@@ -4,7 +4,7 @@
 -/
 import YaraModel.Lemmas.ReAlgebra
 import YaraModel.Lemmas.ReVm
-import YaraModel.Model.ReEmit
+import YaraModel.Lemmas.ReEmit
 namespace YaraModel.C03
 open YaraModel.Re
 
@@ -81,5 +81,30 @@ theorem vm_reports_reachable (e : Env) (m : Int) (c : List Nat) (h : exec e = .d
 open YaraModel.ReVm YaraModel.ReEmit in
 /-- instance: the model of `yr_re_exec` on the code emitted for `a(b|c)*d` (greedy) over `abcbd` reports 5 -/
 example : exec { code := (emitCode false (.cat (.lit 97) (.cat (.star (.alt (.lit 98) (.lit 99)) true) (.lit 100)))).toArray, entry := 0, buf := "abcbd".toUTF8.data, start := 0, fl := {} } = .done 5 [] := by decide
+
+
+open YaraModel.ReVm YaraModel.ReEmit in
+/-- `vm_sound_partial`: soundness of the bytecode VM on emitted code for regular expressions built from literals, `.`,
+    the escapes \w \W \s \S \d \D, the anchors ^ $ and the word boundaries \b \B, `.{n,m}`, concatenation, alternation,
+    `*` and `+` (greedy or lazy, nested in any way) — i.e. every node kind except bracket classes `[...]`, counted repeats
+    `e{n,m}` of a non-dot body and the empty alternative.  For ALL such expressions, ALL buffers and start positions, byte
+    mode (ascii), any nocase / dot-all flags, exhaustive or first-match mode, forward code: every length the Lean model of
+    `yr_re_exec` reports on the code produced by the Lean model of `_yr_re_emit` is a length the specification admits at that
+    position (in particular a reported match of the string at an offset implies that the expression matches there).
+    Both models are validated against the C functions on every generated case (real bytecode: C VM = Lean VM; emitted bytes
+    equal).  Full statement aimed at (not yet proved): also `[...]` (bitmap decoding), `e{n,m}` (REPEAT_START/END with the
+    counter stack), wide mode, backward code, the scan mode of `matches`, and the converse inclusion (completeness, which
+    needs the executed-split-set argument for ε-loops). -/
+theorem vm_sound_partial (r : Re) (hf : Frag r) (hsz : clen r < 32000) (buf : Bytes) (start : Nat) (hst : start ≤ buf.size)
+    (fl : VmFlags) (hw : fl.wide = false) (hb : fl.backwards = false) (hsc : fl.scan = false) (fuel : Nat) (m : Int) (c : List Nat)
+    (h : exec { code := (emitCode false r).toArray, entry := 0, buf := buf, start := start, fl := fl, syncFuel := fuel } = .done m c) :
+    (∀ L, L ∈ c → Re.Matches (specFlags fl) buf r start (start + L)) ∧
+    (0 ≤ m → Re.Matches (specFlags fl) buf r start (start + m.toNat)) :=
+  vm_sound_frag r hf hsz buf start hst fl hw hb hsc fuel m c h
+
+open YaraModel.ReEmit in
+/-- the fragment is not empty: `\ba(b|c)*d+\B` -/
+example : Frag (.cat .wordB (.cat (.lit 97) (.cat (.star (.alt (.lit 98) (.lit 99)) true) (.cat (.plus (.lit 100) false) .nonWordB)))) :=
+  .cat .wordB (.cat (.lit _) (.cat (.star _ (.alt (.lit _) (.lit _))) (.cat (.plus _ (.lit _)) .nonWordB)))
 
 end YaraModel.C03
